@@ -23,6 +23,7 @@ RULE = (
     "(thorough) steps from every initial covariance. "
     "Invariant on every transition: no exception, covariance symmetric and lambda_min >= 0 up to 1e-9 x the largest covariance magnitude met along the history (rounding of G P G^T and P - K H P is relative to the operands, and is inherited by later, smaller covariances). distinct = "
     "distinct canonical states; non-trivial = all states beyond the initial ones."
+    " Further: sing-copies (three exactly proportional states, precise sensor) from priors that know one state 1e6 / 3e5 times worse than the others; chain5 (five-state integrator chain, four sensors of 1-2 readings with noise 1e-5..1e-2) from 2^30 I and 2^34 I, BFS depth 3 plus whole-tick patterns (one prediction, then every sensor, in every rotation) repeated 24 / 96 times."
 )
 ASSUMPTIONS = [
     "bounded histories: states with |x| > 64 or |P| entries above 1e6 or non-finite are not expanded (counted as pruned)",
